@@ -18,6 +18,10 @@ tvars == <<w, res, l>>
 ev == Rec[l]
 IsEvent(e) == l <= Len(Rec) /\ Rec[l].ev = e /\ l' = l + 1
 
+\* TLC splits a disjunction that occurs in an ACTION into separate successor computations; every
+\* observation predicate is therefore evaluated as a plain Boolean value through Check.
+Check(P) == IF P THEN TRUE ELSE FALSE
+
 OptsOf(o) == [method |-> o.method, level |-> o.level, large |-> o.large, perm |-> o.perm,
               dt |-> <<o.dt[1], o.dt[2]>>, enc |-> o.enc]
 
@@ -27,9 +31,9 @@ CloseWorks(ww) == ww.comp # Closed /\ (ww.wtef => EndExtraF(ww).ok)
 \* position of the sink when the previous entry has been closed = where the next record starts
 CsFrom(nextRecordAt) == IF NeedsCs(w) THEN nextRecordAt - DStartAtClose(w) ELSE 0
 \* the environment's choice must be one a compressor can make
-CloseGuard(cs, nmlen) == (nmlen <= Thr16 /\ ~w.dead /\ NeedsCs(w) /\ CloseWorks(w)) => CsOk(w, cs)
+CloseGuard(cs, nmlen) == Check((nmlen <= Thr16 /\ ~w.dead /\ NeedsCs(w) /\ CloseWorks(w)) => CsOk(w, cs))
 ResIs == res' = ev.r
-PosOk == w'.pos = -1 \/ w'.pos = ev.pos
+PosOk == Check(w'.pos = -1 \/ w'.pos = ev.pos)
 
 TraceReset == IsEvent("Reset") /\ w' = Init0 /\ res' = "ok"
 TraceNew   == IsEvent("New") /\ New /\ ev.pos = 0
@@ -42,7 +46,7 @@ PlainBase(L) ==
 \* an archive that opens must be accepted for append; the base is judged like any foreign archive
 TraceNewAppend ==
    /\ IsEvent("NewAppend") /\ ev.r # "panic"
-   /\ (WellFormedLoose(ev.L) => ev.r = "ok")
+   /\ Check(WellFormedLoose(ev.L) => ev.r = "ok")
    /\ IF ev.r = "ok" /\ ev.L.ok
       THEN w' = NewAppendF(ev.L, PlainBase(ev.L)) /\ ev.pos = ev.L.cd_start
       ELSE w' = [Init0 EXCEPT !.dead = TRUE]
@@ -61,7 +65,7 @@ TraceStartFileExtra ==
    /\ LET o == OptsOf(ev.o) cs == CsFrom(ev.pos - HdrLen(ev.name, o.large)) IN
         CloseGuard(cs, ev.name.len) /\ StartFileExtra(ev.name, o, cs)
    /\ ResIs /\ PosOk
-   /\ (ev.r = "ok" => ev.ret = Last(w').dstart)
+   /\ Check(ev.r = "ok" => ev.ret = Last(w').dstart)
 TraceStartFileAligned ==
    /\ IsEvent("StartFileAligned")
    /\ LET o == OptsOf(ev.o) cs == CsFrom(ev.pos - ev.ret - HdrLen(ev.name, o.large)) IN
@@ -69,23 +73,23 @@ TraceStartFileAligned ==
         /\ LET r == AlignedF(w, ev.name, o, ev.align, cs, ev.padh) IN
              /\ w' = [r.w EXCEPT !.al = IF r.ok THEN ev.align ELSE 0]
              /\ res' = (IF r.ok THEN "ok" ELSE "err")
-             /\ (r.ok => r.ret = ev.ret)                 \* returned padding = local extra added
+             /\ Check(r.ok => r.ret = ev.ret)            \* returned padding = local extra added
    /\ ResIs /\ PosOk
-   /\ (ev.r = "ok" /\ ev.align > 1 => ev.pos % ev.align = 0)
+   /\ Check(ev.r = "ok" /\ ev.align > 1 => ev.pos % ev.align = 0)
 \* Write and WriteExtra differ only in what the harness put into the bytes
 TraceWrite ==
    /\ (IsEvent("Write") \/ IsEvent("WriteExtra"))
    /\ WriteData(ev.k, ev.acc, ev.xacc)
    /\ ResIs /\ PosOk
-   /\ (w.wtf /\ ~w.wraw /\ w.comp # Closed => IF w.wtef THEN XLen(w.xpre) + XLen(ev.xacc) = XLen(w.xbuf) + ev.k
-                                                 ELSE ev.acc.len = w'.stats.len)
-   /\ (ev.r = "ok" => ev.k = ev.n)
+   /\ Check(w.wtf /\ ~w.wraw /\ w.comp # Closed => IF w.wtef THEN XLen(w.xpre) + XLen(ev.xacc) = XLen(w.xbuf) + ev.k
+                                                      ELSE ev.acc.len = w'.stats.len)
+   /\ Check(ev.r = "ok" => ev.k = ev.n)
 TraceEndExtra ==
    /\ IsEvent("EndExtra") /\ EndExtra /\ ResIs /\ PosOk
-   /\ (ev.r = "ok" => ev.ret = Last(w').dstart)
+   /\ Check(ev.r = "ok" => ev.ret = Last(w').dstart)
 TraceEndLocalStartCentral ==
    /\ IsEvent("EndLocalStartCentral") /\ EndLocalStartCentral /\ ResIs /\ PosOk
-   /\ (ev.r = "ok" => ev.ret = Last(w').dstart)
+   /\ Check(ev.r = "ok" => ev.ret = Last(w').dstart)
 TraceAddDir ==
    /\ IsEvent("AddDir")
    /\ LET o == OptsOf(ev.o) cs == CsFrom(ev.pos - HdrLen(ev.dname, o.large)) IN
@@ -100,7 +104,7 @@ SrcOf(s) == [method |-> s.method, crc |-> s.crc, usize |-> s.usize, csize |-> s.
              dt |-> <<s.date, s.time>>, mode |-> s.mode, rawid |-> s.rawcrc]
 TraceRawCopy ==
    /\ IsEvent("RawCopy")
-   /\ ev.src.r = "ok" /\ ev.src.rraw = "ok" /\ ev.src.rawlen = ev.src.csize
+   /\ Check(ev.src.r = "ok" /\ ev.src.rraw = "ok" /\ ev.src.rawlen = ev.src.csize)
    /\ LET nm == IF ev.rename THEN ev.name ELSE ev.src.name
           large == Max(ev.src.csize, ev.src.usize) > Thr32
           cs == CsFrom(ev.pos - ev.src.csize - HdrLen(nm, large)) IN
@@ -118,9 +122,9 @@ TraceFinish ==
 TraceDrop ==
    /\ IsEvent("Drop")
    /\ LET cs == CsFrom(ev.pos - TailLen(w)) IN
-        (w.comp # Closed /\ FinalizeF(w, cs).ok => CloseGuard(cs, w.comment.len)) /\ Drop(cs)
+        Check(w.comp # Closed /\ FinalizeF(w, cs).ok => CloseGuard(cs, w.comment.len)) /\ Drop(cs)
    /\ ResIs
-   /\ (w'.fin => PosOk)
+   /\ Check(w'.fin => PosOk)
 
 (***************************************************************************)
 (* Observations                                                            *)
@@ -159,12 +163,12 @@ LayoutMatches(L, ww) ==
 \*  the observations of whatever bytes are in the sink are not constrained, except: no panic)
 TraceLayout ==
    /\ IsEvent("Layout")
-   /\ w.fin => /\ (IF w.strict THEN WriterWellFormed(ev.L) ELSE WellFormedLoose(ev.L))   \* C02
-               /\ LayoutMatches(ev.L, w)         \* ... and say what the call history says
+   /\ Check(w.fin => /\ (IF w.strict THEN WriterWellFormed(ev.L) ELSE WellFormedLoose(ev.L))   \* C02
+                     /\ LayoutMatches(ev.L, w))  \* ... and say what the call history says
    /\ UNCHANGED <<w, res>>
 TraceOpen ==
    /\ IsEvent("Open") /\ ev.r # "panic"
-   /\ w.fin => (ev.r = "ok" /\ ev.n = Len(w.files) /\ ev.comment.id = w.comment.id /\ ev.offset = 0)
+   /\ Check(w.fin => (ev.r = "ok" /\ ev.n = Len(w.files) /\ ev.comment.id = w.comment.id /\ ev.offset = 0))
    /\ UNCHANGED <<w, res>>
 TraceEntryUnfinished ==
    /\ IsEvent("Entry") /\ ~w.fin /\ ev.r # "panic" /\ ev.rraw # "panic"
@@ -172,7 +176,7 @@ TraceEntryUnfinished ==
 Decodable(f) == f.method \in Writable
 TraceEntry ==
    /\ IsEvent("Entry") /\ w.fin /\ ev.i \in 1..Len(w.files)
-   /\ LET f == w.files[ev.i] x == ExpLayout(w).cd[ev.i] IN
+   /\ LET f == w.files[ev.i] x == ExpLayout(w).cd[ev.i] IN Check(
         /\ ev.r = "ok" /\ ev.rraw = "ok"
         /\ ev.name.id = f.name.id /\ ev.rawname.id = f.name.id
         /\ ev.method = f.method /\ ev.date = f.dt[1] /\ ev.time = f.dt[2]
@@ -184,11 +188,11 @@ TraceEntry ==
         /\ (f.kind \in {"raw", "old"} => ev.rawcrc = f.rawsrc)
         /\ (Decodable(f) /\ f.kind # "raw" => ev.rc = "ok")
         /\ (ev.rc = "ok" => ev.content.len = f.usize /\ ev.content.crc = f.crc)
-        /\ ev.rc # "panic"
+        /\ ev.rc # "panic")
    /\ UNCHANGED <<w, res>>
 
 \* verdict of an external parser (CPython zipfile, Info-ZIP unzip) on the bytes just judged
-TraceReferee == /\ IsEvent("Referee") /\ (w.fin => ev.verdict \in {"ok", "skip"}) /\ UNCHANGED <<w, res>>
+TraceReferee == /\ IsEvent("Referee") /\ Check(w.fin => ev.verdict \in {"ok", "skip"}) /\ UNCHANGED <<w, res>>
 TraceDumped  == IsEvent("Dumped") /\ UNCHANGED <<w, res>>
 TraceLoad    == IsEvent("Load") /\ UNCHANGED <<w, res>>       \* a foreign archive made available as a source
 \* finish() and drop produced identical bytes for the same program (C01)
